@@ -55,8 +55,10 @@ class Ctx:
 
     # -- solver ---------------------------------------------------------------------------------
     def _solver(self):
-        if self.logic == "bv" and not self.uses_fp:
+        if self.logic == "bv" and not self.uses_fp and not getattr(self, "uses_uf", False):
             s = z3.SolverFor("QF_BV")
+        elif self.logic == "bv" and getattr(self, "uses_uf", False) and not self.uses_fp:
+            s = z3.SolverFor("QF_UFBV")
         else:
             s = z3.Solver()
         s.set("timeout", self.query_timeout_ms)
